@@ -59,6 +59,10 @@ func c13Policies(ctx *core.Ctx) [][]spec.Op {
 			spec.Op{K: spec.KAllowStyles, Attrs: []string{"color", "margin"}, Matcher: "re", Re: `^[a-z]+$`, Scope: "match", ElRe: `^my-`},
 			spec.Op{K: spec.KAllowStyles, Attrs: []string{"color"}, Matcher: "enum", Enum: []string{"red", "blue"}, Scope: "match", ElRe: `-`},
 			spec.Op{K: spec.KAllowStyles, Attrs: []string{"float"}, Matcher: "handler", Handler: "short", Scope: "els", Names: []string{"div", "span"}},
+			// the same attribute bound by name with a pattern first and without one later
+			spec.Op{K: spec.KAllowAttrs, Attrs: []string{"title", "lang"}, Re: `^[a-z]+$`, Scope: "els", Names: []string{"p", "div", "span", "a"}},
+			spec.Op{K: spec.KAllowAttrs, Attrs: []string{"title", "lang"}, Scope: "els", Names: []string{"p", "div", "span", "a"}},
+			spec.Op{K: spec.KAllowAttrs, Attrs: []string{"title"}, Re: `^[0-9]+$`, Scope: "els", Names: []string{"p", "div"}},
 			spec.Op{K: spec.KAllowAttrs, Attrs: []string{"href", "src", "cite"}, Scope: "global"},
 			spec.Op{K: spec.KSchemeCustom, Names: []string{"http"}, Check: "host-example"},
 			spec.Op{K: spec.KSchemeCustom, Names: []string{"http"}, Check: "host-cdn"},
